@@ -1,6 +1,7 @@
 package props
 
 import (
+	"verif/harness/internal/msg"
 	"fmt"
 	"sort"
 	"strings"
@@ -94,6 +95,28 @@ func c12JudgeHist(p aqP, hist string) c12Verdict {
 		if hist == "after-unregister" {
 			w.Store.UnregisterSP(t.Requester)
 			t.IssuerRegistered = false
+		}
+		if strings.HasPrefix(hist, "after-key-rotation") && p.Issuer == "" {
+			// SP A now registers ANOTHER signing certificate (SP B's): re-registered, or the registry's ServiceProvider object
+			// updated in place. What SP A's old key signs no longer verifies under the registered certificate.
+			a := msg.SPA()
+			a.Certs = []string{world.SPB.B64}
+			switch hist {
+			case "after-key-rotation":
+				if _, err := w.Store.RegisterSP("app-a", a.XML()); err != nil {
+					panic(err)
+				}
+			case "after-key-rotation-in-place-replace":
+				w.Store.UpdateSPInPlace(a.EntityID, a.XML(), "replace")
+			case "after-key-rotation-in-place-edit":
+				w.Store.UpdateSPInPlace(a.EntityID, a.XML(), "edit")
+			}
+			if p.Sign != "" {
+				t.SigIntact = p.Signer == "sp-b" && p.Forge == ""
+				if !t.SigIntact {
+					t.Conformant = false
+				}
+			}
 		}
 		_, req, _ = aqBuild(p)
 	}
@@ -352,7 +375,7 @@ func runC12(ctx Ctx) int {
 		if len(it.labels) > 2 {
 			continue
 		}
-		for _, h := range []string{"after-a-query", "after-unregister"} {
+		for _, h := range []string{"after-a-query", "after-unregister", "after-key-rotation", "after-key-rotation-in-place-replace", "after-key-rotation-in-place-edit"} {
 			items = append(items, item{it.p, append(append([]string{}, it.labels...), "history="+h), h})
 		}
 	}
